@@ -331,6 +331,9 @@ class Executor:
                 if len(parts) == 3 and parts[0].strip() == 'i8':
                     ity, itok = parse_type_prefix(parts[2])
                     return Ptr(base.obj, simp(base.off + bv(int(itok), 64)))
+            m = re.match(r'inttoptr\s+\(i64\s+(\d+)\s+to\s+ptr\)$', tok)
+            if m:   # dangling (aligned, non-null) pointer of an empty Vec / slice: an address inside the null object; any access through it is UB
+                return Ptr(0, bv(int(m.group(1)), 64))
             raise Outcome('unsupported', 'ptr const ' + tok)
         if ty.startswith('{'):
             if tok in ('undef', 'poison', 'zeroinitializer'):
@@ -856,6 +859,9 @@ class Executor:
             if name.startswith('llvm.trap') or name.startswith('llvm.ubsantrap'):
                 raise Outcome('panic:trap', fr['fn'].name[-60:] + ':' + fr['block'])
             raise Outcome('unsupported', name)
+        if name == 'verif_exit':   # harness bridge: leave the kernel with this verdict code (see harness/src/kernels/bridge.rs)
+            st.frames[:] = []
+            raise Outcome('ret', args[0][1])
         if name in self.funcs:
             f = self.funcs[name]
             self.called.add(name)
